@@ -1,0 +1,9 @@
+//go:build !verif
+
+package plugin
+
+// verifOpenConn is a hook for the verification harness in /verif; without the
+// "verif" build tag it does nothing and plugins are started as processes.
+func verifOpenConn(name, protocol string) *clientConnection { return nil }
+
+func verifNoProcess(cc *clientConnection) bool { return false }
